@@ -1089,6 +1089,7 @@ func routerRun(args []string) error {
 			// handlers whose method returns a custom error type by value are not driven: a zero struct value is a non-nil error,
 			// so "success" cannot be scripted for them from user code
 			plain := []hHandler{}
+			glued := false
 			for _, h := range rec.Handlers {
 				for _, m := range rec.Case.Methods {
 					if m.Name == h.Method && len(m.Ret) > 0 && m.Ret[len(m.Ret)-1] == "error" {
@@ -1099,9 +1100,12 @@ func routerRun(args []string) error {
 			for _, h := range rec.Handlers {
 				for _, seg := range strings.Split(h.Path, "/") {
 					if strings.Contains(seg, "{") && !(strings.HasPrefix(seg, "{") && strings.HasSuffix(seg, "}") && strings.Count(seg, "{") == 1) {
-						plain = nil // a placeholder glued to literal text anywhere in the project changes how engines match sibling paths
+						plain, glued = nil, true // a placeholder glued to literal text anywhere in the project changes how engines match sibling paths
 					}
 				}
+			}
+			if glued {
+				continue // nothing is sent to such a project - not even the generic negative probes (what "/{t}x" matches is engine-defined)
 			}
 			rec.Requests = enumerateRequests(rec.ID, plain, tokens, *full)
 			for _, rq := range rec.Requests {
